@@ -24,7 +24,9 @@ TECHNIQUE = "runtime monitoring: offline checker over the recorded hook event st
 LEVEL_TEXT = ("All nine solvers are run with budgets that converge early or exhaust; the returned objective history is "
               "compared entry by entry with the reference objective of the hook-observed iterate of each outer "
               "iteration, its length with the number of outer iterations that actually ran, and on tolerance exit the "
-              "returned stopping value with the reference violation of the returned point (two-sided, 1% + 1e-4 tol).")
+              "returned stopping value with the reference violation of the returned point (two-sided, 1% + 1e-4 tol). "
+              "Tolerance sweeps (12-24 log-spaced tolerances per problem, acceleration on) make the exit fall on every "
+              "phase of the extrapolation cycle; converged runs are restarted with the intercept shifted.")
 LEVEL_NOTE = ("trusted: vlib/refmath.py objective and certificates; the intercept component of the stopping value is "
               "accepted either as |dF/db| or as |dF/db|/L_b (both are violations of the returned point)")
 RULE = ("cases = (solver, datafit, penalty, storage, intercept, positivity, strategy, budget class in {converges, "
